@@ -20,6 +20,7 @@ var (
 	errNoAssociatedLocalAddress      = errors.New("no associated local address")
 	errNoNATBindingFound             = errors.New("no NAT binding found")
 	errHasNoPermission               = errors.New("has no permission")
+	errNoPortAvailable               = errors.New("no external port available")
 )
 
 // EndpointDependencyType defines a type of behavioral dependendency on the
@@ -196,9 +197,21 @@ func (n *networkAddressTranslator) translateOutbound(from Chunk) (Chunk, error) 
 
 			mapp := n.findOutboundMapping(oKey)
 			if mapp == nil {
-				// Create a new mapping
-				mappedPort := 0xC000 + n.udpPortCounter
-				n.udpPortCounter++
+				// Create a new mapping.
+				// The dynamic port range 0xC000-0xFFFF holds 0x4000 ports: wrap around
+				// instead of running past 65535, and skip ports a mapping still holds.
+				mappedPort := 0
+				for i := 0; i < 0x4000 && mappedPort == 0; i++ {
+					port := 0xC000 + n.udpPortCounter%0x4000
+					n.udpPortCounter++
+					mapped := fmt.Sprintf("%s:%d", n.mappedIPs[0].String(), port)
+					if _, inUse := n.inboundMap[fmt.Sprintf("udp:%s", mapped)]; !inUse {
+						mappedPort = port
+					}
+				}
+				if mappedPort == 0 {
+					return nil, errNoPortAvailable
+				}
 
 				mapp = &mapping{
 					proto:   from.SourceAddr().Network(),
